@@ -524,9 +524,16 @@ def run_assembly(case, acc):
                       where=where)
         return
     # expected global naming
+    # the name a component's hidden variable has in the global state is the
+    # library's business (`steps.add_prefix`); a hidden variable that shows
+    # up globally under its own, unmangled name has leaked
+    def gname(comp, var):
+        return next(iter(steps.add_prefix({var: None}, comp)))
+    raw_hidden = {v for c in comps.values() for v in c.vars
+                  if v.startswith('_')}
     for g in hist:
         for k in g:
-            if k.startswith('_'):
+            if k in raw_hidden:
                 acc.ev()
                 acc.violation('hidden_variable_leaks_unmangled', case,
                               detail=dict(state=g))
@@ -550,8 +557,8 @@ def run_assembly(case, acc):
                     # the real stepper, the documented mangling name + v
                     if own is not None and v in own:
                         exp_local[v] = own[v]
-                    elif own is None and (nm + v) in g:
-                        exp_local[v] = g[nm + v]
+                    elif own is None and gname(nm, v) in g:
+                        exp_local[v] = g[gname(nm, v)]
                 elif v in g:
                     exp_local[v] = g[v]
             if isinstance(c, Mock):
@@ -594,8 +601,8 @@ def run_assembly(case, acc):
                     ren = c.ren
                     inner = c.inner
                 yk = ren.get('y', 'y')
-                s = (g['x'], g[yk], g[nm + '_goal'])
-                o = (g2['x'], g2[yk], g2[nm + '_goal'])
+                s = (g['x'], g[yk], g[gname(nm, '_goal')])
+                o = (g2['x'], g2[yk], g2[gname(nm, '_goal')])
                 if o not in cl.opts.get(s, set()):
                     acc.ev()
                     acc.violation('recorded_step_violates_component', case,
